@@ -454,9 +454,13 @@ fn gen(args: &[String]) {
     let first = arg_u64(args, "--first", 0);
     let texts = arg_u64(args, "--texts", 16);
     let stream = stream_of(args);
+    let limit_ms = arg_u64(args, "--limit-ms", 4000);
     let mut shapes = 0u64;
     let mut bad = 0u64;
-    for i in first..first + n {
+    let mut slow = 0u64;
+    let mut done = 0u64;
+    'fonts: for i in first..first + n {
+        done += 1;
         let (spec, mut r) = gen_font(seed, stream, i);
         let problems = check(&spec);
         if !problems.is_empty() {
@@ -469,7 +473,17 @@ fn gen(args: &[String]) {
         }
         for j in 0..texts {
             let req = gen_req(&mut r, spec.num_glyphs);
-            let res = shape_bytes(&bytes, &req);
+            let res = match shape_guarded(&bytes, &req, limit_ms) {
+                Some(r) => r,
+                None => {
+                    slow += 1;
+                    println!("slow {} {} >{}ms :: {}", i, j, limit_ms, fmt_req(&req));
+                    if slow >= 6 {
+                        break 'fonts;
+                    }
+                    continue;
+                }
+            };
             shapes += 1;
             match &res {
                 Ok(out) => {
@@ -495,7 +509,20 @@ fn gen(args: &[String]) {
             }
         }
     }
-    println!("gen-summary stream={} fonts={} shapes={} generic_failures={}", if stream == Stream::Mal { "mal" } else { "wf" }, n, shapes, bad);
+    println!("gen-summary stream={} fonts={} shapes={} generic_failures={} slow={}", if stream == Stream::Mal { "mal" } else { "wf" }, done, shapes, bad, slow);
+    // abandoned watchdog threads may still be shaping
+    std::process::exit(0);
+}
+
+/// shape in a worker thread; None when it does not answer within `limit_ms` (the thread is abandoned)
+fn shape_guarded(bytes: &[u8], req: &Req, limit_ms: u64) -> Option<Result<Vec<G>, String>> {
+    let (tx, rx) = std::sync::mpsc::channel();
+    let b = bytes.to_vec();
+    let r = req.clone();
+    std::thread::spawn(move || {
+        let _ = tx.send(shape_bytes(&b, &r));
+    });
+    rx.recv_timeout(std::time::Duration::from_millis(limit_ms)).ok()
 }
 
 fn dump(args: &[String]) {
